@@ -184,6 +184,33 @@ def _case(arg):
                 res.violation("query:empty-grid-malformed", f"empty local grid has points shape {np.asarray(loc.points).shape}", case)
             if not np.array_equal(np.asarray(loc.center), np.asarray(cc)):
                 res.violation("query:center-not-echoed", "centre is not echoed", case)
+    # three-step history (added after seeded change C11-B was missed): the parent has answered queries
+    # (its neighbour tree exists), a selection of it must answer for ITS OWN points
+    for iname, index in (("slice", slice(2, None)), ("array", np.array([4, 0, 3]))):
+        res.count()
+        case = dict(case0, history=f"query, select[{iname}], query")
+        try:
+            with warnings.catch_warnings():
+                warnings.simplefilter("ignore")
+                sub = g[index]
+                c = centres[0]
+                cc = np.float64(c[0]) if dim == 1 else c
+                r = radii[2]
+                loc = sub.get_localgrid(cc, r)
+            ref, ties = brute(np.asarray(sub.points), np.asarray(sub.weights), rv, c, r)
+            if ties:
+                res.inadm()
+                continue
+            li = np.asarray(loc.indices)
+            lp = np.asarray(loc.points, dtype=float).reshape(len(li), -1) if len(li) else np.zeros((0, dim))
+            got = sorted((int(i), tuple(np.round(p, 9) + 0.0)) for i, p in zip(li, lp))
+            res.nontrivial()
+            if got != ref or (len(li) and not np.array_equal(np.asarray(loc.weights), np.asarray(sub.weights)[li])):
+                res.violation("history:selection-after-query:wrong-images", f"dim={dim} lattice={lname} wrap={wrap}: after the parent answered "
+                              f"queries, grid[{iname}].get_localgrid returns {len(got)} images, brute force on the selection's own points "
+                              f"finds {len(ref)}", case)
+        except Exception as exc:
+            res.violation(f"history:selection-after-query:raised:{type(exc).__name__}", f"dim={dim} lattice={lname}: {type(exc).__name__}: {exc}", case)
     # without lattice vectors: identical to the plain grid, including radius = inf
     if rv is None:
         from grid.basegrid import Grid
@@ -210,7 +237,54 @@ def _case(arg):
     return res.as_dict()
 
 
+def _exact_case(arg):
+    """Exact-arithmetic sub-space (added after seeded change C11-A was missed): 1-D grids whose points,
+    lattice vector (a power of two), centres and radii are dyadic rationals, so every distance and every
+    fractional coordinate is computed exactly and an image ON the sphere surface is decidable: here
+    nothing is treated as a tie, |p + n a - c| <= r is enforced literally."""
+    a, wrap, seed = arg
+    from grid.periodicgrid import PeriodicGrid
+
+    res = WorkerResult(section="exact-dyadic-1d")
+    pts = np.array([0.0, 0.125, 0.25, 0.5, 0.625, 0.875]) * abs(a) + (0.0 if wrap else 0.0)
+    if not wrap:
+        pts = pts + np.array([0.0, 0.0, abs(a), -abs(a), 0.0, 2 * abs(a)])  # some points outside the cell
+    w = np.array([1.0, 2.0, 3.0, 4.0, 5.0, 6.0])
+    case0 = {"exact": True, "a": a, "wrap": wrap}
+    with warnings.catch_warnings():
+        warnings.simplefilter("ignore")
+        g = PeriodicGrid(pts.copy(), w, np.array([a]), wrap=wrap)
+    gp = np.asarray(g.points, dtype=float)
+    for c in (0.0, 0.25 * abs(a), float(gp[3]), float(gp.max()), float(gp.min()), -1.5 * abs(a), 3.0 * abs(a) + 0.125):
+        for r in (0.0, 0.125 * abs(a), 0.5 * abs(a), abs(a), 1.25 * abs(a), 2.0 * abs(a), 3.0 * abs(a)):
+            res.count()
+            case = dict(case0, centre=c, radius=r)
+            ref = []
+            K = int(np.ceil((r + np.max(np.abs(gp - c))) / abs(a))) + 2
+            for n in range(-K, K + 1):
+                for i, p in enumerate(gp):
+                    if abs(p + n * a - c) <= r:      # exact in floating point for dyadic inputs
+                        ref.append((i, float(p + n * a)))
+            ref.sort()
+            try:
+                with warnings.catch_warnings():
+                    warnings.simplefilter("ignore")
+                    loc = g.get_localgrid(np.float64(c), r)
+            except Exception as exc:
+                res.violation(f"exact:query:raised:{type(exc).__name__}", f"a={a} wrap={wrap} centre={c} radius={r}: {exc}", case)
+                continue
+            got = sorted((int(i), float(p)) for i, p in zip(np.asarray(loc.indices), np.asarray(loc.points, dtype=float).reshape(-1)))
+            res.nontrivial()
+            if got != ref:
+                sig = "images-missing" if len(got) < len(ref) else ("extra-images" if len(got) > len(ref) else "wrong-images")
+                res.violation(f"exact:query:{sig}", f"1-D dyadic lattice a={a}, wrap={wrap}, centre={c}, radius={r}: {len(got)} images, "
+                              f"exactly {len(ref)} satisfy |p + n a - c| <= r (missing {sorted(set(ref) - set(got))[:3]})", case)
+    return res.as_dict()
+
+
 def run(ctx):
+    for res in lattice.pmap(_exact_case, [(a, wr, ctx.seed) for a in (1.0, 0.5, 2.0, -1.0, -0.5) for wr in (False, True)], ctx.workers):
+        ctx.merge(res)
     jobs = []
     for dim, menu in LATTICES.items():
         for lname in menu:
@@ -228,4 +302,7 @@ def run(ctx):
 
 
 def replay(ctx, case):
+    if case.get("exact"):
+        ctx.merge(_exact_case((case["a"], case["wrap"], ctx.seed)))
+        return
     ctx.merge(_case((case["dim"], case["lattice"], case["wrap"], case["points"], ctx.seed)))
